@@ -965,7 +965,6 @@ def _rd(path):
 
 
 TOOL_FILES = ("tasgridWrapper.cpp", "tasgridWrapper.hpp", "tasgrid_main.cpp", "clidrv.cpp")
-_STD_FRAME = re.compile(r"\((?:in /|stl_|new_allocator|alloc_traits|vector\.tcc|basic_string|allocator\.h|unique_ptr|shared_ptr|functional|std_function)")
 
 
 def valgrind_library_error(cmd, cwd, timeout=170):
@@ -984,11 +983,10 @@ def valgrind_library_error(cmd, cwd, timeout=170):
         m = re.match(r"==\d+==\s+(?:at|by) 0x[0-9A-Fa-f]+: (.*)", line)
         if not m:
             continue
-        fr = m.group(1)
-        if _STD_FRAME.search(fr) or "vgpreload" in fr:
-            continue
-        fm = re.search(r"\(([\w.+-]+):\d+\)\s*$", fr)
+        fm = re.search(r"\(([\w.+-]+):\d+\)\s*$", m.group(1))
         fname = fm.group(1) if fm else ""
+        if not re.match(r"(tsg|Tasmanian|tasgrid|clidrv|gridtest)", fname):
+            continue          # libc / libstdc++ / valgrind frames
         return (fname not in TOOL_FILES), "\n".join(err.split("\n")[:14])
     return False, ""
 
@@ -1145,7 +1143,7 @@ def script_record(sc):
 FLAVORS = (["any"] * 10 + ["global", "sequence", "localp", "wavelet", "fourier"] * 2 + ["quadrature"] * 3 + ["exotic", "zero-out", "mq-localp"])
 
 
-def one_script(idx, seed, tool, drv, runner, replay_obj=None, witness=None):
+def one_script(idx, seed, tool, drv, runner, replay_obj=None, witness=None, tables=None):
     import time
     t0 = time.time()
     r = vlib.rng(seed, PID, idx)
@@ -1183,16 +1181,6 @@ def one_script(idx, seed, tool, drv, runner, replay_obj=None, witness=None):
         div = (0, "driver", "clidrv failed: rc=%s %s" % (rc, se[-300:]))
     else:
         div = compare_script(sc, status, runner, counters)
-        if div and div[1] in ("status", "grid", "output", "stdout") and div[0] < len(sc.inv):
-            okc, why = self_consistent(sc, div[0], drv, runner, base)
-            if okc:
-                bad, text = library_memory_error(sc, div[0], drv, runner, base)
-                if bad:
-                    okc, why = False, "memcheck: the library reads/writes outside its objects or uses uninitialised memory: " + text[:900]
-            if not okc:
-                counters["nondeterministic"] += 1
-                nondet = {"script": [i_["argv"] for i_ in sc.inv], "invocation": div[0], "why": why, "difference": div[2][:200]}
-                div = None
     text = "\n".join(" ".join(i["argv"]) for i in sc.inv)
     zero_cols = False
     if div and div[1] == "status" and div[0] < len(sc.inv):
@@ -1212,7 +1200,23 @@ def one_script(idx, seed, tool, drv, runner, replay_obj=None, witness=None):
             else:
                 t = b.split()
                 empty_sparse = empty_sparse or (len(t) >= 3 and t[2] == b"0")
-    res = {"idx": idx, "zero_cols": zero_cols, "nondet": nondet, "empty_sparse": empty_sparse, "wall": round(time.time() - t0, 2), "flavor": flavor, "ninv": len(sc.inv), "commands": [i["cmd"] for i in sc.inv], "counters": counters,
+    key = None
+    if div and div[0] < len(sc.inv):
+        iv = sc.inv[div[0]]
+        key = known_key(sc.tags, {"cmd": iv["cmd"], "argv": iv["argv"], "err": iv["err"], "rc": iv["rc"], "zero_cols": zero_cols,
+                                  "empty_sparse": empty_sparse}, div[1], status.get(div[0]), tables or {})
+        if key is None and div[1] in ("status", "grid", "output", "stdout"):
+            # an unexplained difference: is the outcome of this invocation a function of its inputs at all?
+            okc, why = self_consistent(sc, div[0], drv, runner, base)
+            if okc:
+                bad, vtext = library_memory_error(sc, div[0], drv, runner, base)
+                if bad:
+                    okc, why = False, "memcheck: the library reads/writes outside its objects or uses uninitialised memory: " + vtext[:900]
+            if not okc:
+                counters["nondeterministic"] += 1
+                nondet = {"script": [i_["argv"] for i_ in sc.inv], "invocation": div[0], "why": why, "difference": div[2][:200]}
+                div = None
+    res = {"idx": idx, "zero_cols": zero_cols, "nondet": nondet, "empty_sparse": empty_sparse, "key": key, "wall": round(time.time() - t0, 2), "flavor": flavor, "ninv": len(sc.inv), "commands": [i["cmd"] for i in sc.inv], "counters": counters,
            "hash": hashlib.sha256(text.encode()).hexdigest()[:16], "div": div, "api_status": status,
            "record": script_record(sc) if div else None, "tags": sorted(sc.tags), "text": text,
            "inv_meta": [{"cmd": i["cmd"], "argv": i["argv"], "err": i["err"][-400:], "rc": i["rc"]} for i in sc.inv] if div else None,
@@ -1373,7 +1377,7 @@ def run(res, tier, seed, replay_obj=None):
     results = []
     with cf.ThreadPoolExecutor(min(12, vlib.NCPU)) as ex:
         vg = ex.submit(valgrind_exoquad, tool) if replay_obj is None else None
-        futs = [ex.submit(one_script, j[0], seed, tool, drv, runner, j[2], j[1]) for j in jobs]
+        futs = [ex.submit(one_script, j[0], seed, tool, drv, runner, j[2], j[1], tables) for j in jobs]
         for f in futs:
             results.append(f.result())
         vg = vg.result() if vg is not None else None
@@ -1401,8 +1405,7 @@ def run(res, tier, seed, replay_obj=None):
             disagreements += 1
             i, what, detail = rr["div"]
             meta = rr["inv_meta"][i] if rr["inv_meta"] and i < len(rr["inv_meta"]) else {"cmd": "?", "argv": [], "err": "", "rc": None}
-            inv = {"cmd": meta["cmd"], "argv": meta["argv"], "err": meta["err"], "rc": meta["rc"], "zero_cols": rr.get("zero_cols"), "empty_sparse": rr.get("empty_sparse")}
-            key = known_key(set(rr["tags"]), inv, what, rr["api_status"].get(i), tables) or ("%s/%s" % (meta["cmd"], what))
+            key = rr.get("key") or ("%s/%s" % (meta["cmd"], what))
             rec = dict(rr["record"] or {})
             rec.update({"kind": "impl-counterexample", "first_divergence": i, "what": what, "detail": detail,
                         "invocation": " ".join(meta["argv"]), "api_status": rr["api_status"].get(i), "script_id": str(rr["idx"])})
